@@ -526,6 +526,13 @@ func (l *Ledger) snapshotPayout(res *BlockResult, h uint32, rates map[int]uint64
 				res.Ambiguous = "holder payout: rounding dust among several equal top stakes"
 			}
 		}
+		if res.Ambiguous != "" {
+			for _, r := range reqs {
+				if r.amt == topv {
+					res.DustCandidates = append(res.DustCandidates, addrOf[r.id])
+				}
+			}
+		}
 	}
 	for id, amt := range pay {
 		l.add(res, addrOf[id], PEG, u(amt), CHolder, "")
